@@ -386,6 +386,16 @@ func run(s *kernel.Sim, c *scen.Case) {
 	for i, bp := range plans {
 		planDesc = append(planDesc, fmt.Sprintf("broker%d{dead=%v reply=%s connect=%s delay=%dms proxyid=%s}", i, bp.dead, bp.reply, bp.connect, bp.delayMs, bp.proxyID))
 	}
+	// the connect id is fresh for every request: no two requests of a run (attempts of one dial, or
+	// successive dials) may carry the same one - a party that saw one could answer the other
+	for i, q := range w.requests {
+		for _, o := range w.requests[:i] {
+			if q.connect != "" && q.connect == o.connect {
+				s.Violate("connect-id-not-fresh", mode, fmt.Sprintf("%s mode, %s: the request to broker %d of dial %d carries the connect id already used for broker %d of dial %d", mode, strings.Join(planDesc, " "), q.broker, q.dialNo, o.broker, o.dialNo))
+				return
+			}
+		}
+	}
 	for _, r := range results {
 		ids := map[string]bool{}
 		for _, q := range w.requests {
